@@ -15,6 +15,7 @@ import (
 	"runtime/debug"
 	"sort"
 	"sync"
+	"syscall"
 	"time"
 
 	"github.com/taurusgroup/multi-party-sig/pkg/party"
@@ -78,16 +79,31 @@ func WithRand(r io.Reader, f func()) {
 	f()
 }
 
-// CallTimeout bounds a single API call; exceeding it is reported as a hang.
+// CallTimeout bounds a single API call; exceeding it is reported as a hang - provided the process really spent that
+// time computing.  On an overloaded machine (other checks running next to this one) a call can be starved of CPU for
+// minutes: the first complete thorough pass that shared the machine with two others reported an honest CMP message as a
+// 120 s "hang".  So after CallTimeout of wall time the call is given up only once the process has used MinCPU of processor
+// time since the call began (a runaway computation gets there at once), or after CallDeadline of wall time whatever the
+// processor time (a deadlock).
 var CallTimeout = 120 * time.Second
+var MinCPU = 90 * time.Second
+var CallDeadline = 900 * time.Second
+
+func cpuTime() time.Duration {
+	var ru syscall.Rusage
+	if err := syscall.Getrusage(syscall.RUSAGE_SELF, &ru); err != nil {
+		return 0
+	}
+	return time.Duration(ru.Utime.Nano() + ru.Stime.Nano())
+}
 
 // Outcome of one call into a party.
 type Outcome struct {
-	Emitted  []*protocol.Message
-	Panic    string // non-empty if the call panicked
-	Hang     bool
-	Closed   bool // the outgoing channel was observed closed during/after this call
-	Elapsed  time.Duration
+	Emitted []*protocol.Message
+	Panic   string // non-empty if the call panicked
+	Hang    bool
+	Closed  bool // the outgoing channel was observed closed during/after this call
+	Elapsed time.Duration
 }
 
 // Party is one real handler plus its observation state.
@@ -178,6 +194,7 @@ func (p *Party) Call(f func()) Outcome {
 	}()
 	timer := time.NewTimer(CallTimeout)
 	defer timer.Stop()
+	cpu0 := cpuTime()
 	for {
 		out := p.out
 		select {
@@ -200,6 +217,10 @@ func (p *Party) Call(f func()) Outcome {
 			}
 			return oc
 		case <-timer.C:
+			if time.Since(start) < CallDeadline && cpuTime()-cpu0 < MinCPU && CallTimeout >= 60*time.Second {
+				timer.Reset(5 * time.Second) // starved, not stuck: look again
+				continue
+			}
 			oc.Hang = true
 			oc.Closed = p.Closed
 			oc.Elapsed = time.Since(start)
